@@ -48,9 +48,13 @@ pub fn rt(args: &[&str]) -> String {
         Some(mut b) if t.done() => {
             let bytes = b.to_cbor();
             let shown = show_bundle(&b);
-            let dec = match Bundle::try_from(bytes.as_slice()) {
-                Ok(d) => format!("OK {}", show_bundle(&d)),
-                Err(_) => "ERR".into(),
+            let main = Bundle::try_from(bytes.as_slice()).ok();
+            if let Some(route) = crate::bio::alt_route_diff(&b, &bytes, &main) {
+                return format!("ALTDIFF {}", route);
+            }
+            let dec = match main {
+                Some(d) => format!("OK {}", show_bundle(&d)),
+                None => "ERR".into(),
             };
             let bytes2 = b.to_cbor();
             format!("OK {} {} DECODED {} AGAIN {}", show_bytes(&bytes), shown, dec, show_bytes(&bytes2))
